@@ -1,5 +1,7 @@
 (* C03 - Generated dependency graph equals the graph the build script describes. *)
-From BFG Require Import Base.Chars Graph.Defaults Graph.DefaultsProofs.
+From BFG Require Import Base.Chars Graph.Defaults Graph.DefaultsProofs Make.MakeSem Graph.Steps Graph.Emit
+  Graph.EmitProofs Graph.EmitSem Graph.StampSem.
+Local Open Scope N_scope.
 
 (* the default target depends on the explicitly declared outputs if any, otherwise on every registered
    (linked) output not handed to test(); for every history in which an output is registered once per list
@@ -27,3 +29,182 @@ Example C03_default_nonvacuous :
   let ops := [DAdd [(1, true)] false; DAdd [(2, true); (3, false)] false; DAdd [(4, true)] false; DRemove 2 false]%N in
   NoDup (added true ops) /\ NoDup (added false ops) /\ wf_rm ops /\ d_outputs (run_dops ops) = [1; 4]%N.
 Proof. cbn. repeat split; try constructor; cbn; intuition; try discriminate; repeat constructor; cbn; intuition discriminate. Qed.
+
+(* ====================================================================== the emitter model (phase 2)
+   Graph/Steps.v: abstract scripts; Graph/Emit.v: the Rule / Build tuples the Make and Ninja rule handlers register,
+   as written; tied to the real handlers by harness/c03.py stage W:emit (real Edge objects through the real builtins,
+   Makefile._rules / NinjaFile._builds compared tuple by tuple). *)
+
+(* Make: for every step of a shape the builtins create and each of its outputs, the prerequisites of the rule that
+   carries the recipe (through the stamp for a multi-output step; order-only .dir sentinels and internal names
+   dropped) are, as a set, what the step consumes *)
+Theorem C03_deps_exact_make : forall st rs o,
+  shape_ok st = true -> emit_make_step st = Some rs -> In o (outs st) ->
+  exists l, make_prereqs rs o = Some l /\ set_eq l (consumed st).
+Proof. exact deps_exact_make. Qed.
+Print Assumptions C03_deps_exact_make.
+
+(* Ninja: explicit + implicit inputs of the producing edge (through the phony alias for the extra outputs of a
+   deps=gcc compile step; PHONY dropped).  NoDup (outs st) is what the emitters enforce (C05_twice_in_one_step_rejected) *)
+Theorem C03_deps_exact_ninja : forall has st o,
+  shape_ok st = true -> NoDup (outs st) -> In o (outs st) ->
+  exists l, ninja_prereqs (fst (emit_ninja_step has st)) o = Some l /\ set_eq l (consumed st).
+Proof. exact deps_exact_ninja. Qed.
+Print Assumptions C03_deps_exact_ninja.
+
+(* files named in the command lines of command() / build_step() are consumed exactly when a step produces them or the
+   command is not phony (BaseCommand.__init__), next to the declared extra_deps *)
+Theorem C03_command_nodes : forall phony nodes extra x,
+  In x (command_extra_deps phony nodes extra) <->
+  (exists c, In (x, c) nodes /\ (c = true \/ phony = false)) \/ In x extra.
+Proof. exact command_nodes_consumed. Qed.
+Print Assumptions C03_command_nodes.
+
+(* all / tests / test / install depend on exactly their declared members (as lists, in order), in both backends;
+   alias targets likewise *)
+Theorem C03_members : forall sc,
+  (make_prereqs (make_all_rule sc) (sc_all sc) = Some (sc_defaults sc) /\
+   (forall deps extra, sc_tests sc = Some (deps, extra) -> sc_test_name sc <> sc_tests_name sc ->
+      make_prereqs (make_test_rules sc) (sc_tests_name sc) = Some (deps ++ extra) /\
+      make_prereqs (make_test_rules sc) (sc_test_name sc) = Some [sc_tests_name sc]) /\
+   (sc_install sc = true -> make_prereqs (make_install_rules sc) (sc_install_name sc) = Some [sc_all sc])) /\
+  (forall has,
+   ninja_prereqs (ninja_all_rule sc) (sc_all sc) = Some (sc_defaults sc) /\
+   (forall deps extra, sc_tests sc = Some (deps, extra) -> sc_test_name sc <> sc_tests_name sc ->
+      ~ In (sc_tests_name sc) (deps ++ extra) -> ~ In (sc_test_name sc) (deps ++ extra) ->
+      ninja_prereqs (fst (ninja_test_rules has sc)) (sc_tests_name sc) = Some (deps ++ extra) /\
+      ninja_prereqs (fst (ninja_test_rules has sc)) (sc_test_name sc) = Some [sc_tests_name sc])).
+Proof. intros sc. split; [exact (members_make sc)|intros has; exact (members_ninja sc has)]. Qed.
+Print Assumptions C03_members.
+
+Theorem C03_members_alias : forall st rs o has,
+  s_kind st = KAlias -> emit_make_step st = Some rs -> In o (outs st) ->
+  make_prereqs rs o = Some (s_extra_deps st) /\
+  ninja_prereqs (fst (emit_ninja_step has st)) o = Some (s_extra_deps st).
+Proof. exact members_alias. Qed.
+Print Assumptions C03_members_alias.
+
+(* install(x) puts x into the explicit default list, which only default()/install() touch: it stays a member of all *)
+Theorem C03_install_in_default : forall s items x,
+  In (x, true) items -> In x (d_outputs (dstep s (DAdd items true))).
+Proof. exact install_in_default. Qed.
+Print Assumptions C03_install_in_default.
+
+(* Rebuild exactness of the emitted Make rules under the mtime semantics (Make/MakeSem.v, validated against GNU Make
+   4.3), for scripts of single-output, non-phony steps (compile, link, build_step, copy_file) that are well formed:
+   one producer per file (C05: the emitters reject anything else), every consumed file a source or produced earlier.
+   After a successful build, a second build runs nothing, and after touching x exactly the steps downstream of x in
+   the SCRIPT's own dependency relation (script_down: defined on consumed, not on the emitted rules) run, in order.
+   Guard (see C03_stamp_consumers_refuted): no multi-output step. *)
+Theorem C03_rebuild_exact : forall steps f clk x,
+  wf_script steps -> fs_below f clk ->
+  let rs := sem_steps steps in
+  let s1 := build rs f clk in
+  b_fail s1 = None ->
+  b_log (build rs (b_fs s1) (b_clk s1)) = [] /\
+  (let s2 := build rs (upd (b_fs s1) (encF x) (b_clk s1)) (b_clk s1 + 1) in
+   b_fail s2 = None /\ b_log s2 = map encF (script_down x steps)).
+Proof. exact rebuild_exact. Qed.
+Print Assumptions C03_rebuild_exact.
+
+(* the rules the theorem speaks about are the emitted ones *)
+Theorem C03_rebuild_rules : forall steps rs, emit_make_steps steps = Some rs -> sem_rules rs = sem_steps steps.
+Proof. exact sem_steps_emit. Qed.
+Print Assumptions C03_rebuild_rules.
+
+(* ---- non-vacuity *)
+(* a precompiled-header compile step with two outputs (stamp), explicit headers, a library and extra_deps *)
+Definition ex_pch : step :=
+  mkStep KCompile [mkOut 10 1; mkOut 11 1] (Some 1) (Some 2) (Some 3) [4; 5] [6] [7] [] [] [] [8] false true.
+Example ex_pch_make :
+  shape_ok ex_pch = true /\
+  emit_make_step ex_pch =
+    Some [mkM [NF 10; NF 11] [NStamp 10] [] false false;
+          mkM [NStamp 10] [NF 2; NF 1; NF 3; NF 4; NF 5; NF 6; NF 7; NF 8] [NDir 1] true false] /\
+  (forall rs, emit_make_step ex_pch = Some rs -> make_prereqs rs 11 = Some [2; 1; 3; 4; 5; 6; 7; 8]) /\
+  consumed ex_pch = [2; 1; 3; 4; 5; 6; 7; 8].
+Proof. repeat split. intros rs E. vm_compute in E. injection E as <-. reflexivity. Qed.
+
+Example ex_pch_ninja :
+  NoDup (outs ex_pch) /\
+  fst (emit_ninja_step false ex_pch) =
+    [mkNB [NF 11] true [NF 10] [] []; mkNB [NF 10] false [NF 2] [NF 3; NF 1; NF 4; NF 5; NF 6; NF 7; NF 8] []] /\
+  ninja_prereqs (fst (emit_ninja_step false ex_pch)) 11 = Some [2; 3; 1; 4; 5; 6; 7; 8].
+Proof. split; [repeat constructor; cbn; intuition discriminate|split; reflexivity]. Qed.
+
+(* a phony command naming a produced file (consumed) and a source file (not consumed) *)
+Example ex_command_nodes : command_extra_deps true [(1, true); (2, false)] [9] = [1; 9] /\
+                           command_extra_deps false [(1, true); (2, false)] [9] = [1; 2; 9].
+Proof. split; reflexivity. Qed.
+
+Definition ex_script : script :=
+  mkScript [] 100 101 102 103 104 [20; 21] (Some ([20], [30])) true false.
+Example ex_members :
+  make_prereqs (make_test_rules ex_script) 101 = Some [20; 30] /\
+  ninja_prereqs (fst (ninja_test_rules false ex_script)) 102 = Some [101] /\
+  fst (ninja_test_rules false ex_script) =
+    [mkNB [NF 101] true [NF 20; NF 30] [] []; mkNB [NPhony] true [] [] []; mkNB [NF 102] false [NF 101] [NPhony] []].
+Proof. repeat split. Qed.
+
+(* a.c -> a.o, b.c -> b.o (+ header 3), {a.o, b.o} -> prog, prog -> copy: touching a.c re-runs a.o, prog, copy *)
+Definition ex_steps : list step :=
+  [mkStep KCompile [mkOut 10 1] (Some 1) None None [] [] [] [] [] [] [] false true;
+   mkStep KCompile [mkOut 11 1] (Some 2) None None [3] [] [] [] [] [] [] false true;
+   mkStep KLink [mkOut 12 0] None None None [] [] [] [10; 11] [] [] [] false false;
+   mkStep KCopyFile [mkOut 13 2] (Some 12) None None [] [] [] [] [] [] [] false false].
+Example ex_rebuild :
+  wf_script ex_steps /\ script_down 1 ex_steps = [10; 12; 13] /\ script_down 3 ex_steps = [11; 12; 13] /\
+  script_down 12 ex_steps = [13] /\ wfb (sem_steps ex_steps) = true.
+Proof.
+  repeat split; try (repeat constructor; cbn; intuition discriminate).
+  all: cbn; intros p H; intuition (subst; discriminate).
+Qed.
+
+(* ====================================================================== the stamp encoding of multi-output steps *)
+
+(* the stamp stands in for the outputs in Make's out-of-date test: while the outputs carry the stamp's time (the recipe
+   writes them and then touches the stamp; modifications of inputs keep this), the recipe runs exactly when an ideal
+   k-output rule (the recipe runs when any output is out of date w.r.t. the declared prerequisites) would run it *)
+Theorem C03_stamp_equiv : forall all s outs stamp deps ord,
+  outs <> [] -> (forall o, In o outs -> b_fs s o = b_fs s stamp) ->
+  need all s (stamp_rule stamp deps ord) = existsb (fun o => need all s (ideal_rule o deps ord)) outs.
+Proof. exact stamp_equiv. Qed.
+Print Assumptions C03_stamp_equiv.
+
+(* documented limitation: deleting one output while the stamp stays - the ideal rule re-runs, the encoding does not *)
+Theorem C03_stamp_delete_refuted :
+  exists all s outs stamp deps ord,
+    outs <> [] /\ b_fail s = None /\
+    need all s (stamp_rule stamp deps ord) = false /\
+    existsb (fun o => need all s (ideal_rule o deps ord)) outs = true.
+Proof. exact stamp_delete_refuted. Qed.
+Print Assumptions C03_stamp_delete_refuted.
+
+(* NOT equivalent for the consumers of the outputs (finding C03-make-stamp-consumer-stale): under GNU Make's depth-first
+   walk with cached mtimes (StampSem.dmake, validated against GNU Make 4.3) the rule  outs: stamp  has no recipe, so an
+   output Make looked at before the stamp's recipe ran keeps its old time: after touching the input of a 2-output
+   build_step, the consumer of the output met first is not rebuilt (the other one is), and the NEXT make - nothing
+   touched - rebuilds it.  Rebuild exactness and build-after-build-does-nothing both fail; hence the guard of
+   C03_rebuild_exact. *)
+Theorem C03_stamp_consumers_refuted :
+  let b1 := dmake ex_stamp_rules [20; 21] (fs_of [(1, 5)]) 10 in
+  let b2 := dmake ex_stamp_rules [20; 21] (d_fs b1) (d_clk b1) in
+  let touched := upd (d_fs b1) 1 (d_clk b1) in
+  let b3 := dmake ex_stamp_rules [20; 21] touched (d_clk b1 + 1) in
+  let b4 := dmake ex_stamp_rules [20; 21] (d_fs b3) (d_clk b3) in
+  d_log b1 = [12; 20; 21] /\ d_log b2 = [] /\
+  d_log b3 = [12; 21] /\ d_log b4 = [20] /\
+  d_fail b1 = false /\ d_fail b3 = false /\ d_fail b4 = false.
+Proof. exact stamp_consumers_refuted. Qed.
+Print Assumptions C03_stamp_consumers_refuted.
+
+(* the example rules are what the Make emitter produces for that script (nodes 10 11 = outputs, 12 = the stamp) *)
+Example ex_stamp_is_emitted :
+  emit_make_step (mkStep KBuildStep [mkOut 10 0; mkOut 11 0] None None None [] [] [] [1] [] [] [] false false) =
+    Some [mkM [NF 10; NF 11] [NStamp 10] [] false false; mkM [NStamp 10] [NF 1] [] true false].
+Proof. reflexivity. Qed.
+
+Example ex_stamp_equiv_nonvacuous :
+  let s := init (fs_of [(1, 9); (10, 7); (11, 7); (12, 7)]) 10 in
+  (forall o, In o [10; 11] -> b_fs s o = b_fs s 12) /\ need [] s (stamp_rule 12 [1] []) = true.
+Proof. split; [intros o [<-|[<-|[]]]; reflexivity|reflexivity]. Qed.
